@@ -162,6 +162,22 @@ claim("C10", "other",
       "symbolic execution with uninterpreted exp/cos/sin and a stated trigonometric lemma + z3",
       "DESIGN.md section 1, C10")
 
+claim("C02", "other",
+      "The real TTNO construction with every term factor symbolic on a strided subset of all rooted trees with up to 4 (5) nodes and 0/1/2 basis sets per node (dummy root / "
+      "internal / leaf nodes), both graph algorithms: TTNO.todense (also in a permuted order) = sum of tensor products = Mpo of the linear chain; tree constructors (linear, "
+      "binary, general_mctdh with all contract labels, t3ns, add_auxiliary_space) keep every basis set exactly once.",
+      "QR variant only on chains (C01); real factors; topology enumerated (sampled with VERIF_SEED beyond the stride); print_tree replaced by a stub.",
+      "symbolic execution of the real TTNO construction on z3-valued factors, enumerated topologies + z3",
+      "DESIGN.md section 1, C02")
+
+claim("C11", "other",
+      "TTNS/TTNO with symbolic node tensors on enumerated trees (<= 4/5 nodes, 0-2 basis sets per node, dummy nodes): add, scale, copy, todense(order), TTNO.apply, expectation via "
+      "TTNEnviron and via full contraction, norm, canonicalise, push_cano, lossless compress, 1-site / 1-dof / 2-site reduced density matrices, dump/load, invariance under "
+      "reordering the children of a node, from_mps, product-state constructor with labels - against an independent contraction of the same symbols.",
+      "Entropies NOT covered; LAPACK by contract; zero labels on the symbolic trees; partial operators and tree truncation bounds only in thorough/not covered.",
+      "symbolic execution of the real tree code with LAPACK contract stubs + independent einsum oracle + z3",
+      "DESIGN.md section 1, C11")
+
 for pid in ["C%02d" % i for i in range(1, 21)]:
     if pid not in CHECKS:
         NA[pid] = "check not built yet (build in progress; see DESIGN.md)"
